@@ -22,21 +22,35 @@
    flight - until its deadline: lock waiters are judged where nothing is in flight.  A step that lets the node's deadline pass,
    hangs up, resets or resumes is observed only when the node has settled (nothing in flight, nothing able to run) or the bound
    is over; then: nothing in flight, nobody waiting for a lock, a malformed input sent meanwhile has closed the connection (due),
-   after a hang-up / a stall to the end the connection is closed, and a closed connection's peer is forgotten. *)
+   after a hang-up / a stall to the end the connection is closed, and a closed connection's peer is forgotten.
+
+   Input that waits behind a write in flight.  The node's frame reader queues decoded messages (a channel of 10) for the one
+   goroutine that handles them; while that goroutine is inside a write the remote does not take, "nothing of the node can run"
+   is reached with messages still queued: the blocks / confirm packets they carry reach the caches in a LATER step (when the
+   remote resumes, resets, hangs up, or the write's deadline passes).  back counts what was sent since the last observation
+   at which the queue was certainly empty (nothing in flight and nothing able to run); the envelope of a step is what the
+   caches held at the previous observation plus back plus what the step itself sent.  (Found by the thorough tier:
+   Dial, StopReading, OhsGood, Phs_Good, Blocks_Good, GetConfirms_Good, Resume - the block sent in step 5 is cached in step 7.) *)
 EXTENDS WireClasses, WireSeq, TraceBase
 CONSTANTS AllowedDev, MaxFrameK, SlackK, C
 VARIABLES phase, tainted, obs,
           rx,     \* what the remote does with the node's writes: "read" | "stall" | "rst"
           due,    \* the node owes closing the connection (malformed input behind a write in flight)
-          owed    \* the node owes the bystander a transaction the remote sent (E.by: a bystander is connected; E.bgot: TxsMsg frames it got so far)
-tv == <<phase, tainted, obs, rx, due, owed, l>>
+          owed,   \* the node owes the bystander a transaction the remote sent (E.by: a bystander is connected; E.bgot: TxsMsg frames it got so far)
+          back    \* [nb, nc]: blocks / confirm packets sent in earlier steps that may still wait in the node's inbound queue behind a write in flight
+tv == <<phase, tainted, obs, rx, due, owed, back, l>>
 OpenPhases == {"PreHs", "OutHs", "ProtoHs", "Est"}
 
 ObsInit == [ids |-> {}, nb |-> 0, nc |-> 0, known |-> {"G"}, stable |-> 0]
 HasObs(e) == "bc" \in DOMAIN e
 ObsOf(e) == IF HasObs(e) THEN [ids |-> ToSet(e.bcIds), nb |-> e.bc, nc |-> e.cc, known |-> ToSet(e.has), stable |-> e.stable] ELSE obs
 \* ds: the universe blocks sent in the step (sequence of descriptors)
-Proportionate(e, ds) == HasObs(e) => /\ CountEnvelope(e.bc, e.cc, obs.nb, obs.nc, e.nblk, e.nconf)
+\* the inbound queue is certainly empty: no write of the node is in flight and nothing of the node can run
+ZeroBack == [nb |-> 0, nc |-> 0]
+Drained(e) == "wpend" \in DOMAIN e /\ "quiet" \in DOMAIN e /\ e.wpend = 0 /\ e.quiet
+BackOf(e) == IF Drained(e) THEN ZeroBack
+             ELSE IF "nblk" \in DOMAIN e THEN [nb |-> back.nb + e.nblk, nc |-> back.nc + e.nconf] ELSE back
+Proportionate(e, ds) == HasObs(e) => /\ CountEnvelope(e.bc, e.cc, obs.nb + back.nb, obs.nc + back.nc, e.nblk, e.nconf)
                                      /\ IdsEnvelope(ToSet(e.bcIds), obs.ids, ds, obs.known, obs.stable)
                                      /\ e.bc = Len(e.bcIds)
                                      /\ e.stable >= obs.stable /\ obs.known \subseteq ToSet(e.has)     \* the chain only grows
@@ -73,27 +87,27 @@ ByOK(e) == e.by => ~e.bclosed
 ByPeers(e) == IF e.by THEN 1 ELSE 0       \* the peers the node knows once the first remote's connection is closed
 ByTx(e) == e.by /\ e.a[1] = "Txs_Good" /\ phase = "Est"
 
-TReset == Ev("reset") /\ phase' = "Idle" /\ tainted' = FALSE /\ obs' = ObsInit /\ Fresh /\ owed' = FALSE
+TReset == Ev("reset") /\ phase' = "Idle" /\ tainted' = FALSE /\ obs' = ObsInit /\ Fresh /\ owed' = FALSE /\ back' = ZeroBack
 \* opening a connection in either direction: the node is alive, nothing is deadlocked and it waits for the remote's handshake packet
 \* (when dialing: after having sent its own request, which the remote could decrypt - E.req - otherwise the binding is broken)
 TConnect == /\ Ev("Connect") /\ ~tainted /\ "dead" \notin DOMAIN E
             /\ E.alive /\ Len(E.blocked) = 0 /\ ~E.closed /\ E.allocK <= Bound(0) /\ Proportionate(E, <<>>)
-            /\ phase' = "PreHs" /\ obs' = ObsOf(E) /\ Fresh /\ UNCHANGED <<tainted, owed>>
+            /\ phase' = "PreHs" /\ obs' = ObsOf(E) /\ back' = BackOf(E) /\ Fresh /\ UNCHANGED <<tainted, owed>>
 TDial == /\ Ev("Dial") /\ ~tainted /\ "dead" \notin DOMAIN E
          /\ E.alive /\ Len(E.blocked) = 0 /\ ~E.closed /\ E.allocK <= Bound(0) /\ E.req = "ok" /\ Proportionate(E, <<>>)
-         /\ phase' = "OutHs" /\ obs' = ObsOf(E) /\ Fresh /\ UNCHANGED <<tainted, owed>>
+         /\ phase' = "OutHs" /\ obs' = ObsOf(E) /\ back' = BackOf(E) /\ Fresh /\ UNCHANGED <<tainted, owed>>
 TRecv == /\ Ev("Recv") /\ ~tainted /\ "dead" \notin DOMAIN E /\ rx = "read" /\ UNCHANGED <<rx, due, owed>>
          /\ \E t \in TRows(E.a[1], phase) :
               \/ /\ Healthy(E) /\ ReactOK(t[3], E, phase) /\ Proportionate(E, <<>>)
                  /\ ByOK(E) /\ (ByTx(E) => E.bgot > 0)
-                 /\ phase' = Np(t[3], E, phase) /\ tainted' = FALSE /\ obs' = ObsOf(E)
+                 /\ phase' = Np(t[3], E, phase) /\ tainted' = FALSE /\ obs' = ObsOf(E) /\ back' = BackOf(E)
               \/ /\ ~(Healthy(E) /\ ReactOK(t[3], E, phase))
                  /\ t[6] \in AllowedDev /\ DevMatch(t, E) /\ UseDev(t[6])
-                 /\ phase' = phase /\ tainted' = TRUE /\ UNCHANGED obs
+                 /\ phase' = phase /\ tainted' = TRUE /\ UNCHANGED <<obs, back>>
 \* input for a connection the node has already closed (possible after an "any" class): nothing may happen
 TRecvClosed == /\ Ev("Recv") /\ ~tainted /\ "dead" \notin DOMAIN E /\ phase = "Closed"
                /\ Healthy(E) /\ E.closed /\ E.read = 0 /\ Proportionate(E, <<>>)
-               /\ obs' = ObsOf(E) /\ UNCHANGED <<phase, tainted, owed>> /\ Fresh
+               /\ obs' = ObsOf(E) /\ back' = BackOf(E) /\ UNCHANGED <<phase, tainted, owed>> /\ Fresh
 \* ---------------------------------------------------------------- the receive-side layer
 \* input while the remote does not take (stall) or refuses (rst) the node's writes: the answer cannot be delivered, so keeping
 \* or dropping the connection are both fine - but malformed input closes it, now or (behind a write in flight) once that is over
@@ -108,8 +122,8 @@ TRecvRx == /\ Ev("Recv") /\ ~tainted /\ "dead" \notin DOMAIN E /\ rx # "read" /\
                 /\ phase' = (IF E.closed THEN "Closed" ELSE IF t[3] = "adv" THEN NextPhase(phase) ELSE phase)
                 /\ due' = (~E.closed /\ (due \/ t[3] = "close"))
                 /\ rx' = (IF E.closed THEN "read" ELSE rx)
-           /\ obs' = ObsOf(E) /\ UNCHANGED tainted
-RxEv(name) == Ev(name) /\ ~tainted /\ "dead" \notin DOMAIN E /\ obs' = ObsOf(E) /\ ByOK(E) /\ UNCHANGED <<tainted, owed>>
+           /\ obs' = ObsOf(E) /\ back' = BackOf(E) /\ UNCHANGED tainted
+RxEv(name) == Ev(name) /\ ~tainted /\ "dead" \notin DOMAIN E /\ obs' = ObsOf(E) /\ back' = BackOf(E) /\ ByOK(E) /\ UNCHANGED <<tainted, owed>>
 RxNp(e, nrx) == /\ phase' = (IF e.closed THEN "Closed" ELSE phase)
                 /\ rx' = (IF e.closed THEN "read" ELSE nrx)
                 /\ due' = FALSE
@@ -144,18 +158,18 @@ TRxClosed == /\ \E nm \in {"StopReading", "Resume", "ResetConn", "HangUp", "Dead
 SeqStep(ds) == /\ ~tainted /\ "dead" \notin DOMAIN E /\ phase \in {"Est", "Closed"} /\ UNCHANGED <<rx, due, owed>>
                /\ Healthy(E) /\ Proportionate(E, ds)
                /\ phase = "Closed" => E.closed /\ E.read = 0
-               /\ phase' = (IF E.closed THEN "Closed" ELSE phase) /\ obs' = ObsOf(E) /\ UNCHANGED tainted
+               /\ phase' = (IF E.closed THEN "Closed" ELSE phase) /\ obs' = ObsOf(E) /\ back' = BackOf(E) /\ UNCHANGED tainted
 TSBlocks == Ev("SBlocks") /\ SeqStep(IF phase = "Est" THEN E.a[1] ELSE <<>>)
 TSConfirm == Ev("SConfirm") /\ SeqStep(<<>>)
 \* the manager's queue timer passed at least once, nothing was sent: whatever it did, the node is healthy and the caches did not grow
 TTick == /\ Ev("Tick") /\ ~tainted /\ "dead" \notin DOMAIN E /\ phase \in {"Est", "Closed"} /\ UNCHANGED <<rx, due, owed>>
          /\ Healthy(E) /\ Proportionate(E, <<>>) /\ E.read = 0
-         /\ phase' = (IF E.closed THEN "Closed" ELSE phase) /\ obs' = ObsOf(E) /\ UNCHANGED tainted
+         /\ phase' = (IF E.closed THEN "Closed" ELSE phase) /\ obs' = ObsOf(E) /\ back' = BackOf(E) /\ UNCHANGED tainted
 \* after an accepted known failure the node is dead / deadlocked / busy: the rest of the behaviour carries no information
 TSkip == /\ tainted /\ l <= Len(Trace) /\ Trace[l].ev # "reset" /\ "panic" \notin DOMAIN Trace[l]
-         /\ l' = l + 1 /\ UNCHANGED <<phase, tainted, obs, rx, due, owed>>
+         /\ l' = l + 1 /\ UNCHANGED <<phase, tainted, obs, rx, due, owed, back>>
 TraceNext == TReset \/ TConnect \/ TDial \/ TRecv \/ TRecvClosed \/ TSBlocks \/ TSConfirm \/ TTick \/ TSkip
              \/ TRecvRx \/ TStopReading \/ TResume \/ TResetConn \/ TDeadline \/ THangUp \/ TStallOut \/ TRxClosed \/ TBystander
-TraceSpec == l = 1 /\ phase = "Idle" /\ tainted = FALSE /\ obs = ObsInit /\ rx = "read" /\ due = FALSE /\ owed = FALSE /\ [][TraceNext]_tv
+TraceSpec == l = 1 /\ phase = "Idle" /\ tainted = FALSE /\ obs = ObsInit /\ rx = "read" /\ due = FALSE /\ owed = FALSE /\ back = ZeroBack /\ [][TraceNext]_tv
 PhaseOK == phase \in {"Idle", "PreHs", "OutHs", "ProtoHs", "Est", "Closed"}
 ====
